@@ -109,6 +109,10 @@ func res[T any](i int) T { var z T; return z }
 // quantifier variables
 var qi, qj, qk int
 
+// rangeindex names the hidden index of a for-range loop in its invariant:
+// the index of the element processed last (-1 before the first iteration).
+var rangeindex int
+
 func forall(v int, lo, hi int, body bool) bool { return body }
 func exists(v int, lo, hi int, body bool) bool { return body }
 
